@@ -13,6 +13,7 @@ import (
 	"sync/atomic"
 
 	"github.com/cloudwego/hertz/pkg/app"
+	"github.com/cloudwego/hertz/pkg/protocol/consts"
 	"github.com/cloudwego/hertz/pkg/protocol/http1/resp"
 
 	"verifh/httpref"
@@ -41,6 +42,22 @@ const (
 	BStreamChunked
 	BStreamLimited
 	BHijack
+	// convenience APIs of RequestContext; the first two start by resetting the response
+	BAbortMsg // ctx.AbortWithMsg(body, status)
+	BNotFound // ctx.NotFound() (status 404, fixed body)
+	BString   // ctx.String(status, "%s", body)
+	BData     // ctx.Data(status, type, body)
+)
+
+// framing header fields a handler may (mistakenly, or when relaying another server's header) set itself
+const (
+	TENone       = iota
+	TESetCanon   // Header.Set("Transfer-Encoding", "chunked")
+	TESetLower   // Header.Set("transfer-encoding", "chunked")
+	TEAddLower   // Header.Add("transfer-encoding", "chunked")
+	TESetLowerNN // the same with header-name normalising disabled on the response
+	TEAddLowerNN
+	nTE
 )
 
 // reader behaviours
@@ -59,6 +76,7 @@ type Prog struct {
 	Trailer bool   `json:"trailer,omitempty"`
 	IHF     bool   `json:"ihf,omitempty"`
 	Close   bool   `json:"close,omitempty"` // handler calls SetConnectionClose
+	TE      int    `json:"te,omitempty"`    // the handler sets a Transfer-Encoding field itself (TE* constants)
 }
 
 type Req struct {
@@ -116,6 +134,8 @@ func (p Prog) want(salt byte) []byte {
 	switch p.Body {
 	case BNone:
 		return nil
+	case BNotFound:
+		return []byte(consts.StatusMessage(404))
 	case BHijack:
 		var b []byte
 		for _, o := range p.Ops {
@@ -132,6 +152,12 @@ func (p Prog) want(salt byte) []byte {
 }
 
 func (p Prog) run(ctx *app.RequestContext, salt byte) {
+	switch p.Body { // these reset the response: headers are set after them
+	case BAbortMsg:
+		ctx.AbortWithMsg(string(payload(p.Size, salt)), p.Status)
+	case BNotFound:
+		ctx.NotFound()
+	}
 	ctx.SetStatusCode(p.Status)
 	ctx.Response.Header.Set("X-H", "v")
 	if p.Close {
@@ -145,7 +171,27 @@ func (p Prog) run(ctx *app.RequestContext, salt byte) {
 		ctx.Response.Header.Trailer().Set("X-Tr", "tv") //nolint:errcheck
 	}
 	data := payload(p.Size, salt)
+	defer func() {
+		switch p.TE {
+		case TESetCanon:
+			ctx.Response.Header.Set("Transfer-Encoding", "chunked")
+		case TESetLower:
+			ctx.Response.Header.Set("transfer-encoding", "chunked")
+		case TEAddLower:
+			ctx.Response.Header.Add("transfer-encoding", "chunked")
+		case TESetLowerNN:
+			ctx.Response.Header.DisableNormalizing()
+			ctx.Response.Header.Set("transfer-encoding", "chunked")
+		case TEAddLowerNN:
+			ctx.Response.Header.DisableNormalizing()
+			ctx.Response.Header.Add("transfer-encoding", "chunked")
+		}
+	}()
 	switch p.Body {
+	case BString:
+		ctx.String(p.Status, "%s", data)
+	case BData:
+		ctx.Data(p.Status, "application/octet-stream", data)
 	case BSetBody:
 		ctx.Response.SetBody(data)
 	case BAppendWrite:
@@ -257,6 +303,9 @@ func (w *worker) exec(c *mc.Ctx, cs Case) {
 	}
 	for i, m := range fin {
 		p, r := cs.Progs[i], cs.Reqs[i]
+		if p.Body == BNotFound {
+			p.Status = 404
+		}
 		if m.Status != p.Status {
 			fail("status", fmt.Sprintf("response %d decodes to status %d, handler set %d", i, m.Status, p.Status))
 			return
@@ -360,6 +409,22 @@ func programs(thorough bool) []Prog {
 					}
 				}
 			}
+			for _, n := range []int{0, 1, 4097} {
+				for _, b := range []int{BAbortMsg, BString, BData} {
+					out = append(out, Prog{Status: st, Body: b, Size: n, Close: cl})
+				}
+			}
+			if st == 404 {
+				out = append(out, Prog{Status: st, Body: BNotFound, Close: cl})
+			}
+			if st == 200 || st == 204 {
+				for te := 1; te < nTE; te++ {
+					for _, n := range []int{0, 1, 4097} {
+						out = append(out, Prog{Status: st, Body: BSetBody, Size: n, Close: cl, TE: te}, Prog{Status: st, Body: BStreamLen, Size: n, Close: cl, TE: te},
+							Prog{Status: st, Body: BStreamChunked, Size: n, Close: cl, TE: te})
+					}
+				}
+			}
 			if !bodiless(st) {
 				for _, ops := range hijackOps() {
 					for _, tr := range []bool{false, true} {
@@ -406,6 +471,11 @@ func reducedProgs() []Prog {
 		{Status: 101, Body: BNone},
 		{Status: 204, Body: BStreamChunked, Size: 3},
 		{Status: 200, Body: BStreamLen, Size: 0},
+		{Status: 403, Body: BAbortMsg, Size: 6},
+		{Status: 404, Body: BNotFound},
+		{Status: 200, Body: BString, Size: 1},
+		{Status: 200, Body: BStreamLen, Size: 1, TE: TEAddLower},
+		{Status: 200, Body: BSetBody, Size: 3, TE: TESetLowerNN},
 	}
 }
 
